@@ -209,8 +209,20 @@ func (l *Life) LeanCrossScenario(tag string) {
 		}
 		return b
 	}
-	a := l.Build(gaps(boundaryBatch(l, n, 0, []int{700 + l.r.Intn(50), 3})), 1026)
-	b := l.Build(gaps(boundaryBatch(l, n, 10000, []int{1027 + l.r.Intn(8), 2052 + l.r.Intn(8), 1024, 40})), 1026)
+	// a field whose first (and only) dictionary key is the empty term, in more than 1024 documents of the
+	// second input and a few hundred of the first: the per-term state of the merger (cardinality, chunk size)
+	// has to be set up for it although "the previous term" is still nil-or-empty
+	empties := func(b []Doc, keep func(i int) bool) []Doc {
+		for i := range b {
+			if keep(i) {
+				b[i].Fields = append(b[i].Fields, FieldInst{Name: B("g"), Len: 1, Toks: []Tok{{T: B{}, Fr: 1, Locs: []Loc{{P: 1, S: 0, E: 1, AP: Ints{}}}}}})
+				b[i].Canon()
+			}
+		}
+		return b
+	}
+	a := l.Build(empties(gaps(boundaryBatch(l, n, 0, []int{700 + l.r.Intn(50), 3})), func(i int) bool { return i%3 == 0 }), 1026)
+	b := l.Build(empties(gaps(boundaryBatch(l, n, 10000, []int{1027 + l.r.Intn(8), 2052 + l.r.Intn(8), 1024, 40})), func(i int) bool { return i%5 != 0 }), 1026)
 	c := l.Build(boundaryBatch(l, n/2, 20000, []int{1}), 1025)
 	if a == nil || b == nil || c == nil {
 		return
